@@ -181,13 +181,17 @@ class Dict:
     is set the values are themselves dicts held by value:
     val: K -> (K2 -> V2), idom: K -> (K2 -> Bool).
     Insertion order (only where iteration needs it): keys: Int->K, nkeys, pos: K->Int"""
-    def __init__(self, kkind, vkind, dom, val, idom=None, inner=None, keys=None, nkeys=None, pos=None):
+    def __init__(self, kkind, vkind, dom, val, idom=None, inner=None, keys=None, nkeys=None, pos=None, seq=None):
         self.kkind, self.vkind, self.dom, self.val = kkind, vkind, dom, val
         self.idom, self.inner = idom, inner
         self.keys, self.nkeys, self.pos = keys, nkeys, pos
+        # seq: the node stands for a *sequence* (tuple / list) of dicts held by value: keys are the positions
+        # 0 .. seq-1 (z3 Int); None for an ordinary dict
+        self.seq = seq
+        self.nones = None      # for a sequence: z3 Array Int->Bool, position holds None (its dict is then empty)
 
     def replace(self, **kw):
-        d = Dict(self.kkind, self.vkind, self.dom, self.val, self.idom, self.inner, self.keys, self.nkeys, self.pos)
+        d = Dict(self.kkind, self.vkind, self.dom, self.val, self.idom, self.inner, self.keys, self.nkeys, self.pos, self.seq)
         d.__dict__.update(kw)
         return d
 
